@@ -11,7 +11,7 @@ def check_groups(groups, n_features_in):
         for g in groups:
             all_indices.extend(list(g))
         # Ensure that the indices are valid
-        if min(all_indices) < 0 or max(all_indices) >= n_features_in:
+        if len(all_indices) > 0 and (min(all_indices) < 0 or max(all_indices) >= n_features_in):
             raise ValueError(f"Indices passed to the groups argument should be contained in [0, {n_features_in}]")
         if len(all_indices) == n_features_in:
             # We expect that it is a partition, so we should have as much indices as the number of features
